@@ -9,6 +9,8 @@ from concurrent.futures import ProcessPoolExecutor
 
 import z3
 
+z3.set_param('warning', False)      # patterns containing ite terms are ignored by z3 (it then picks its own): not an error
+
 from ..result import Obligation
 
 
